@@ -572,7 +572,7 @@ class ArrayBase(ParsableBase, MutableSequence, Serializable):
         self._items.reverse()
 
     def _asdict(self):
-        return self._items
+        return list(self._items)
 
     def _as_markdown(self, level):
         return self._markdown_result(self._asdict(), level)
